@@ -367,7 +367,8 @@ void checkL3(const plan::Plan& p, const RunData& rd, hz::RunResult* res) {
       if (r->tag == "auth") continue;
       std::string mname = r->line.get("msg");
       if (!msgs.count(mname)) continue;
-      const MsgModel& m = msgs[mname];
+      MsgModel m = msgs[mname];
+      if (r->line.has("dst")) m.zz = static_cast<uint8_t>(r->line.num("dst"));   // an explicitly requested destination
       {
         // a hex command names bytes, not a definition: when the bytes fit several definitions (a longer ID whose extra
         // bytes look like the other one's data), which of them - and whose level - is meant is ebusd's choice: not judged
@@ -405,6 +406,7 @@ void checkL3(const plan::Plan& p, const RunData& rd, hz::RunResult* res) {
         }
         continue;
       }
+      if (g && r->line.num("lenient", 0)) continue;   // only the safety direction is judged for this request
       if (!g) {
         // MUST NOT: a value, or a telegram of this message on the bus while the request was served
         if (!isErr) {
@@ -497,7 +499,9 @@ void checkL3(const plan::Plan& p, const RunData& rd, hz::RunResult* res) {
         data.insert(data.end(), good->slave.begin() + 1, good->slave.end());
       }
       if (isErr) {
-        if (haveAll && lastGood && anyInWindow) {
+        // (tolerant: the bus thread is stalled on purpose in this plan; an exchange that the slave answered may still have
+        //  failed for ebusd because it could not keep the timing)
+        if (haveAll && lastGood && anyInWindow && !r->line.num("tolerant", 0)) {
           snprintf(buf, sizeof(buf), "[%s] answered [%s] although every part was answered correctly on the bus", r->request.c_str(), r->response.substr(0, 60).c_str());
           res->violate(prop, prop == "C16" ? "granted-access-denied" : "false-failure", "read", buf);
         } else if (!anyInWindow && !hasForeignTraffic) {
@@ -662,6 +666,26 @@ void checkL3(const plan::Plan& p, const RunData& rd, hz::RunResult* res) {
         if (!found) {
           snprintf(buf, sizeof(buf), "topic [%s] with [%s]: telegram %s differs from the reference encoding %s", in.topic.c_str(), in.data.c_str(), ref::hex(ex.back()->master).c_str(), ref::hex(want).c_str());
           res->violate("C18", "mqtt-topic-mapping", "set-other-bytes", buf);
+        }
+        continue;
+      }
+      if (in.line.has("listcircuit")) {
+        // list with the circuit only: every message of that circuit is published, and no message of another circuit is
+        // listed (a listing publishes an empty payload for a message without data; updates always carry data)
+        std::string circ = in.line.get("listcircuit");
+        for (auto& mm : msgs) {
+          for (size_t i = 0; i < (byField ? mm.fields.size() : 1); i++) {
+            std::string topic = build(mm, byField ? "f" + std::to_string(i) : "");
+            bool any = false, emptyPub = false;
+            for (auto& pb : rd.pubs) if (pb.t >= in.t && pb.t <= to && pb.topic == topic) { any = true; if (pb.data.empty()) emptyPub = true; }
+            if (mm.circuit == circ && !any) {
+              snprintf(buf, sizeof(buf), "topic [%s] (template [%s]) lists circuit %s, nothing was published on [%s]", in.topic.c_str(), tmpl.c_str(), circ.c_str(), topic.c_str());
+              res->violate("C18", "mqtt-topic-mapping", "list-not-published", buf);
+            } else if (mm.circuit != circ && emptyPub) {
+              snprintf(buf, sizeof(buf), "topic [%s] (template [%s]) lists circuit %s, but [%s] of circuit %s was listed as well", in.topic.c_str(), tmpl.c_str(), circ.c_str(), topic.c_str(), mm.circuit.c_str());
+              res->violate("C18", "mqtt-topic-mapping", "list-of-other-circuit", buf);
+            }
+          }
         }
         continue;
       }
